@@ -11,7 +11,7 @@ import random
 from bvmon import harness
 
 FACTORS = [
-    ("cfg", 8),        # config commit/tag/push bits
+    ("cfg_commit", 2), ("cfg_tag", 3), ("cfg_push", 3),   # config: commit false/true; tag, push: 0 absent, 1 true, 2 false
     ("cli_commit", 3), ("cli_tag", 3), ("cli_push", 3),   # 0 = not given, 1 = --x, 2 = --no-x
     ("pre", 3), ("post", 3),   # 0 absent, 1 succeeds, 2 fails
     ("dirty", 2), ("allow_dirty", 2), ("tagmsg", 2), ("remote", 2), ("dry", 2),
@@ -20,14 +20,16 @@ FACTORS = [
 SIZES = [n for _, n in FACTORS]
 TOTAL = 1
 for _n in SIZES:
-    TOTAL *= _n   # 77,760 x 2 x 2 = 311,040
+    TOTAL *= _n   # 18 x 27 x 9 x 32 = 139,968 configurations, x fetch x vcs = 559,872
 
 SPEC = dict(
     level="fault_enumeration",
-    rule=("configurations = config commit/tag/push (8) x tri-state --commit/--tag-commit/--push (27) x pre/post hook "
-          "{absent, ok, fails} (9) x dirty x --allow-dirty x tag message {empty, set} x remote {present, absent} x --dry "
-          "(77,760) x fetch on/off x {git, hg command set} = 311,040: thorough enumerates ALL, quick samples 6,000 + "
-          "every single factor level; plus, for a set of base configurations, EVERY logged VCS/hook invocation is "
+    rule=("configurations = config commit {false, true} x tag, push {absent, true, false} (18, incl. the contradictory "
+          "ones that must be rejected) x tri-state --commit/--tag-commit/--push (27) x pre/post hook {absent, ok, fails} (9) x dirty x "
+          "--allow-dirty x tag message {empty, set} x remote {present, absent} x --dry (139,968, a superset of the "
+          "statement's 77,760) x fetch on/off x {git, hg command set} = 559,872: thorough enumerates ALL, quick samples 6,000 + every single factor level; two more "
+          "variations are derived from the configuration index (hooks given on the command line; a VCS tag newer than "
+          "the config version); plus, for a set of base configurations, EVERY logged VCS/hook invocation is "
           "made to fail in turn; non-trivial+distinct = distinct configurations whose allowed trace has >= 1 mutating "
           "event + distinct (failed step kind, position) pairs"),
     assumptions=["R7 (function expected() below) encodes the statement's pipeline; read-only VCS queries are ignored",
@@ -38,7 +40,7 @@ SPEC = dict(
     anchors=[("cli", "_parse_vcs_options"), ("cli", "_update"), ("vcs", "commit"), ("hooks", "run"),
              ("vcs", "get_tags"), ("vcs", "assert_not_dirty")],
     exhaustive={"quick": False, "thorough": True},
-    exhaustive_note="thorough enumerates all 311,040 configurations; fault positions are enumerated completely for the "
+    exhaustive_note="thorough enumerates all 559,872 configurations of the product named in 'rule'; fault positions are enumerated completely for the "
                     "sampled base configurations",
 )
 
@@ -74,7 +76,7 @@ def cases(ctx):
     n_bases = 48 if ctx.quick else 480
     while len(bases) < n_bases:
         f = decode(R.randrange(TOTAL))
-        f.update(cfg=R.choice([1, 3, 7, 5]), cli_commit=R.choice([0, 1]), cli_tag=R.choice([0, 0, 1]),
+        f.update(cfg_commit=1, cfg_tag=R.choice([0, 1, 1, 2]), cfg_push=R.choice([0, 1, 2]), cli_commit=R.choice([0, 1]), cli_tag=R.choice([0, 0, 1]),
                  cli_push=R.choice([0, 0, 1]), dirty=0, dry=0, pre=R.choice([0, 1]), post=R.choice([0, 1]))
         bases.append(f)
     for k, f in enumerate(bases):
@@ -84,7 +86,7 @@ def cases(ctx):
 
 def effective(f):
     """R7 part 1: effective settings or rejection reason"""
-    c_commit, c_tag, c_push = bool(f["cfg"] & 1), bool(f["cfg"] & 2), bool(f["cfg"] & 4)
+    c_commit, c_tag, c_push = bool(f["cfg_commit"]), f["cfg_tag"] == 1, f["cfg_push"] == 1
     if (c_tag or c_push) and not c_commit:
         return None, "config:tag/push without commit"
     tri = {0: None, 1: True, 2: False}
@@ -132,7 +134,7 @@ ORDER = {"pre-hook": 0, "add": 1, "commit": 2, "post-hook": 3, "tag": 4, "push":
 
 
 def extras(f):
-    """two variations outside the 311,040 product, derived deterministically from the configuration:
+    """two variations outside the enumerated product, derived deterministically from the configuration:
     hooks given on the command line instead of the config; a VCS tag newer than the config version"""
     idx = encode(f)
     return {"hooks_via_cli": (idx // 7) % 2 == 1, "newer_tag": (idx // 11) % 3 == 0}
@@ -145,11 +147,14 @@ def versions(f):
 def build(f):
     vcs = "hg" if f["vcs"] else "git"
     ex = extras(f)
-    c_commit, c_tag, c_push = bool(f["cfg"] & 1), bool(f["cfg"] & 2), bool(f["cfg"] & 4)
+    c_commit = bool(f["cfg_commit"])
     lines = ["[bumpver]", 'current_version = "1.2.3"', 'version_pattern = "MAJOR.MINOR.PATCH"',
              'commit_message = "bump {old_version} -> {new_version}"',
              'tag_message = "%s"' % ("" if not f["tagmsg"] else "release {new_version}"),
-             f"commit = {str(c_commit).lower()}", f"tag = {str(c_tag).lower()}", f"push = {str(c_push).lower()}"]
+             f"commit = {str(c_commit).lower()}"]
+    for key in ("tag", "push"):
+        if f["cfg_" + key]:
+            lines.append(f"{key} = {'true' if f['cfg_' + key] == 1 else 'false'}")
     if f["pre"] and not ex["hooks_via_cli"]:
         lines.append('pre_commit_hook = "hook-pre"')
     if f["post"] and not ex["hooks_via_cli"]:
